@@ -129,6 +129,11 @@ pub enum Ev {
     PskProbe { psk: B, psk_id: B },
     /// raw open with arbitrary bytes on receiver r (no model record involved)
     RawOpen { r: usize, ct: B, aad: B, tag: Option<B> },
+    /// soak: n rejected deliveries in a row on receiver r (variants of the record it would accept next,
+    /// or garbage if there is none); every one must be rejected and leave the position alone
+    RejectBurst { r: usize, from: usize, n: u32 },
+    /// context dropped while its thread is unwinding from a panic (the wipes must still happen)
+    TeardownUnwinding { c: usize, role: Role },
     /// content-dependent adversary: for every record of sender `from` whose ct||tag ends in zero
     /// bytes, deliver it with exactly those bytes stripped (receiver re-pinned on the record's position)
     StripZerosProbe { r: usize, from: usize },
@@ -166,6 +171,8 @@ impl Ev {
             Ev::PskProbe { .. } => "PskProbe",
             Ev::RawOpen { .. } => "RawOpen",
             Ev::On { .. } => "On",
+            Ev::RejectBurst { .. } => "RejectBurst",
+            Ev::TeardownUnwinding { .. } => "TeardownUnwinding",
             Ev::StripZerosProbe { .. } => "StripZerosProbe",
             Ev::SingleShotOpenRaw { .. } => "SingleShotOpenRaw",
         }
